@@ -1031,6 +1031,47 @@ def fam_C16(rng, tier):
             lines += ['root %d' % h, 'tovec %d' % h]
         lines.append('dump 0 1 2 3')
         out.append(Case(lines, 'threads-%d' % nthreads, ('memo', 'no_deadlock'), {'cfg': cfg, 'threads': nthreads}))
+    out += conc_heavy(rng, tier)
+    return out
+
+
+def conc_heavy(rng, tier):
+    """many threads hash the same large, not-yet-hashed collection at once (by reference and through
+    clones that share its nodes), several rounds with a fresh collection each: un-packed leaves,
+    nested-list elements whose own hashing forks, packed leaves."""
+    out = []
+    cfgs = [('h256', 1024, 'maxvec'), ('nest', 1024, 'maxvec'), ('nest', 33, 'btree'), ('cont', 33, 'vec'),
+            ('u64', 1024, 'maxvec'), ('var', 1024, 'btree'), ('h256', 33, 'btree'), ('nest', 8, 'vec')]
+    for cfg in cfgs * scale(tier, 1, 2):
+        kind, N, m = cfg
+        r = sub(rng)
+        lines = [cfg_line(cfg)]
+        for rnd in range(scale(tier, 2, 3)):
+            n = min(N, r.choice([N, 200, 600]) if N > 40 else N)
+            xs = [val(r, kind, pzero=0.1) for _ in range(n)]
+            lines.append('new 0 list ' + ' '.join(xs))
+            lines.append('clone 0 1')
+            if n:
+                lines += ['getmut 1 %d %s' % (r.randrange(n), val(r, kind, pzero=0.0)), 'apply 1']
+            nthreads = 16
+            lines.append('conc-begin')
+            for t in range(nthreads):
+                priv = 100 + 10 * t
+                role = t % 4
+                if role == 0:
+                    ops = ['root 0', 'root 1', 'root 0']
+                elif role == 1:
+                    ops = ['clone 0 %d' % priv, 'root %d' % priv, 'root 1']
+                elif role == 2:
+                    ops = ['root 1', 'clone 1 %d' % priv, 'getmut %d %d %s' % (priv, r.randrange(max(1, n)), val(r, kind)),
+                           'apply %d' % priv, 'root %d' % priv, 'root 0']
+                else:
+                    ops = ['clone 0 %d' % priv, 'rebase %d 1' % priv, 'root %d' % priv, 'intra %d' % priv, 'root %d' % priv]
+                for o in ops:
+                    lines.append('T %d %s' % (t, o))
+            lines.append('conc-end')
+            lines += ['root 0', 'root 1', 'len 0']
+        out.append(Case(lines, 'threads-heavy-' + kind, ('no_deadlock',), {'cfg': cfg, 'threads': 16}))
     return out
 
 
